@@ -26,6 +26,10 @@ from concurrent.futures.process import BrokenProcessPool
 
 from . import common as C
 
+# native thread pools (BLAS under numpy's SVD in add_loopless) must not multiply the forked workers
+for _k in ("OMP_NUM_THREADS", "OPENBLAS_NUM_THREADS", "MKL_NUM_THREADS"):
+    os.environ.setdefault(_k, "1")
+
 INF = 1000000
 SCALE = 1000000
 OPS_MODULES = ("FluxLatticeOps", "FluxLattice")
@@ -38,13 +42,13 @@ PALETTES = [
 ]
 
 BASE = {"Prop": "C04", "Mode": "family", "NMets": 2, "NRxns": 2, "BPal": "q6", "OPal": "few", "NWalks": 1,
-        "Depth": 0, "Seed": 0, "Emit": True, "Bug": "none", "Canon": False, "Thm": set()}
+        "Depth": 0, "Seed": 0, "Emit": True, "Bug": "none", "Canon": False, "Thm": set(), "Topo": "all"}
 
 # per property and tier: design runs, behaviour generators (name, constants, palettes per behaviour)
 TIERS = {
     "C04": {
         "quick": {
-            "design": [{"NRxns": 3, "BPal": "q6", "OPal": "first", "Canon": True, "Thm": {"dual", "range"}}],
+            "design": [{"NRxns": 3, "BPal": "q6", "OPal": "first", "Canon": True, "Thm": {"dual"}}],
             "gens": [("family2x2", {"NRxns": 2, "BPal": "q6", "OPal": "few"}, 1),
                      ("walk", {"Mode": "walk", "NMets": 3, "NRxns": 5, "BPal": "t8", "NWalks": 700, "Depth": 8}, 2)],
         },
@@ -53,6 +57,51 @@ TIERS = {
             "gens": [("family2x2", {"NRxns": 2, "BPal": "t8", "OPal": "rich"}, 2),
                      ("family2x3", {"NRxns": 3, "BPal": "q6", "OPal": "unit", "Canon": True}, 2),
                      ("walk", {"Mode": "walk", "NMets": 4, "NRxns": 6, "BPal": "i9", "NWalks": 20000, "Depth": 10}, 2)],
+        },
+    },
+    "C05": {
+        "quick": {
+            "design": [{"Mode": "proto", "NRxns": 3, "BPal": "f3", "OPal": "first", "Canon": True},
+                       {"NRxns": 3, "BPal": "f3", "OPal": "first", "Canon": True, "Thm": {"range", "loop"}}],
+            "gens": [("family2x3", {"NRxns": 3, "BPal": "f3", "OPal": "unit", "Canon": True}, 1),
+                     ("cycle2", {"Topo": "cyc2", "NMets": 2, "NRxns": 4, "BPal": "f3", "OPal": "unit"}, 1),
+                     ("walk", {"Mode": "walk", "NMets": 3, "NRxns": 6, "BPal": "f7", "NWalks": 300, "Depth": 6}, 2)],
+        },
+        "thorough": {
+            "design": [{"Mode": "proto", "NRxns": 3, "BPal": "f7", "OPal": "unit", "Canon": True},
+                       {"NRxns": 3, "BPal": "f7", "OPal": "unit", "Canon": True, "Thm": {"range", "loop"}}],
+            "gens": [("family2x3", {"NRxns": 3, "BPal": "f7", "OPal": "unit", "Canon": True}, 2),
+                     ("cycle2", {"Topo": "cyc2", "NMets": 2, "NRxns": 4, "BPal": "f7", "OPal": "unit"}, 2),
+                     ("cycle3", {"Topo": "cyc3", "NMets": 3, "NRxns": 5, "BPal": "f4", "OPal": "unit"}, 1),
+                     ("walk", {"Mode": "walk", "NMets": 4, "NRxns": 6, "BPal": "i9", "NWalks": 6000, "Depth": 8}, 2)],
+        },
+    },
+    "C19": {
+        "quick": {
+            "design": [{"NRxns": 3, "BPal": "z5", "OPal": "first", "Canon": True, "Thm": {"blocked"}}],
+            "gens": [("family2x3", {"NRxns": 3, "BPal": "z3", "OPal": "unit", "Canon": True}, 1),
+                     ("cycle2", {"Topo": "cyc2", "NMets": 2, "NRxns": 4, "BPal": "z3", "OPal": "first"}, 1),
+                     ("walk", {"Mode": "walk", "NMets": 3, "NRxns": 6, "BPal": "z5", "NWalks": 500, "Depth": 6}, 2)],
+        },
+        "thorough": {
+            "design": [{"NRxns": 3, "BPal": "z5", "OPal": "unit", "Canon": True, "Thm": {"blocked"}}],
+            "gens": [("family2x3", {"NRxns": 3, "BPal": "z5", "OPal": "unit", "Canon": True}, 2),
+                     ("cycle2", {"Topo": "cyc2", "NMets": 2, "NRxns": 4, "BPal": "z5", "OPal": "unit"}, 2),
+                     ("cycle3", {"Topo": "cyc3", "NMets": 3, "NRxns": 5, "BPal": "z3", "OPal": "first"}, 2),
+                     ("walk", {"Mode": "walk", "NMets": 4, "NRxns": 7, "BPal": "z5", "NWalks": 8000, "Depth": 8}, 2)],
+        },
+    },
+    "C17": {
+        "quick": {
+            "design": [{"NRxns": 3, "BPal": "f4", "OPal": "first", "Canon": True, "Thm": {"loop"}}],
+            "gens": [("cycle2", {"Topo": "cyc2", "NMets": 2, "NRxns": 4, "BPal": "f3", "OPal": "unit"}, 1),
+                     ("walk", {"Mode": "walk", "NMets": 3, "NRxns": 6, "BPal": "f7", "NWalks": 300, "Depth": 6}, 1)],
+        },
+        "thorough": {
+            "design": [{"NRxns": 3, "BPal": "f7", "OPal": "unit", "Canon": True, "Thm": {"loop"}}],
+            "gens": [("cycle2", {"Topo": "cyc2", "NMets": 2, "NRxns": 4, "BPal": "f7", "OPal": "unit"}, 2),
+                     ("cycle3", {"Topo": "cyc3", "NMets": 3, "NRxns": 5, "BPal": "f4", "OPal": "unit"}, 1),
+                     ("walk", {"Mode": "walk", "NMets": 4, "NRxns": 6, "BPal": "f7", "NWalks": 5000, "Depth": 8}, 1)],
         },
     },
 }
@@ -98,8 +147,8 @@ NEG_CONTROLS = {
     "C04": [("opt_ignores_dir", {"Mode": "family", "NRxns": 3, "BPal": "f4", "OPal": "first", "Canon": True, "Thm": {"dual"}}, "InvThm")],
     "C05": [("fva_no_clear", {"Mode": "proto", "NRxns": 3, "BPal": "f4", "OPal": "first", "Canon": True}, "InvFvaProto"),
             ("fva_min_uses_lb", {"Mode": "proto", "NRxns": 3, "BPal": "f4", "OPal": "first", "Canon": True}, "InvFvaProto")],
-    "C19": [],
-    "C17": [],
+    "C19": [("scale_lemma_out_of_scope", {"Mode": "family", "NRxns": 3, "BPal": "f4", "OPal": "first", "Canon": True, "Thm": {"blocked"}}, "InvThm")],
+    "C17": [("loop_removal_ignores_sign", {"Mode": "family", "NRxns": 3, "BPal": "f4", "OPal": "first", "Canon": True, "Thm": {"loop"}}, "InvThm")],
 }
 
 
@@ -263,16 +312,99 @@ class Driver:
         if op == "setdir":
             m.objective_direction = s["dir"]
             return {"raises": "none"}
+        if op == "fva":
+            from cobra.flux_analysis import flux_variability_analysis
+            kw = {"processes": 1, "loopless": bool(s["loopless"]),
+                  "fraction_of_optimum": 1.0 if s["num"] == s["den"] else s["num"] / float(s["den"])}
+            if s["pf"]:
+                kw["pfba_factor"] = s["pf"] / 10.0
+            try:
+                df = flux_variability_analysis(m, reaction_list=self.rlist(s), **kw)
+            except Exception as e:
+                return {"raises": type(e).__name__, "index": [], "min": [], "max": []}
+            return {"raises": "none", "index": [self.pos(i) for i in df.index],
+                    "min": [enc(x) for x in df["minimum"]], "max": [enc(x) for x in df["maximum"]]}
+        if op == "blocked":
+            from cobra.flux_analysis import find_blocked_reactions
+            if {r.id for r in m.exchanges} != {r.id for r in m.reactions if r.boundary}:
+                raise C.Machinery("palette assumption broken: model.exchanges is not the set of boundary reactions")
+            try:
+                ids = find_blocked_reactions(m, reaction_list=self.rlist(s), open_exchanges=bool(s["open"]), processes=1)
+            except Exception as e:
+                return {"raises": type(e).__name__, "ids": []}
+            return {"raises": "none", "ids": [self.pos(getattr(i, "id", i)) for i in ids]}
+        if op == "fastcc":
+            from cobra.flux_analysis import fastcc
+            try:
+                res = fastcc(m)
+            except Exception as e:
+                return {"raises": type(e).__name__, "kept": []}
+            kept = []
+            for r in res.reactions:
+                row, extra = [0] * self.nm, 0
+                for met, coef in r.metabolites.items():
+                    if met.id in self.mids and float(coef) == int(coef):
+                        row[self.mids.index(met.id)] = int(coef)
+                    else:
+                        extra += 1
+                kept.append({"pos": self.pos(r.id), "S": row, "lb": tok(r.lower_bound), "ub": tok(r.upper_bound),
+                             "rule": str(r.gene_reaction_rule), "extra": extra})
+            return {"raises": "none", "kept": kept}
+        if op == "loopless_solution":
+            from cobra.flux_analysis.loopless import loopless_solution
+            from cobra.util.solver import fix_objective_as_constraint
+            start = []
+            try:
+                if s["start"] == "none":
+                    sol = loopless_solution(m)
+                else:
+                    if s["start"] == "opt":
+                        s0 = m.optimize()
+                    else:
+                        # another optimal vector of the same model: the optimum is fixed and an auxiliary
+                        # objective loads the cycles differently
+                        with m:
+                            fix_objective_as_constraint(m)
+                            m.objective = self.rx[s["ar"] - 1]
+                            m.objective_direction = s["ad"]
+                            s0 = m.optimize()
+                    start = [enc(s0.fluxes[i]) for i in self.rids]
+                    sol = loopless_solution(m, fluxes=s0.fluxes)
+            except Exception as e:
+                return {"raises": type(e).__name__, "start": start, "sol": NO_DIGEST}
+            return {"raises": "none", "start": start, "sol": self.digest(sol)}
+        if op == "add_loopless":
+            from cobra.flux_analysis.loopless import add_loopless
+            try:
+                with m:
+                    add_loopless(m)
+                    sol = m.optimize()
+                    d = self.digest(sol)
+            except Exception as e:
+                return {"raises": type(e).__name__, "sol": NO_DIGEST}
+            return {"raises": "none", "sol": d}
         raise C.Machinery("unknown step %r" % (op,))
 
-    def run(self, beh, tid):
+    def pos(self, rid):
+        return self.rids.index(rid) + 1 if rid in self.rids else 0
+
+    def rlist(self, s):
+        if s["by"] == "none":
+            return None
+        out = []
+        for j, k in enumerate(s["rl"]):
+            asobj = s["by"] == "obj" or (s["by"] == "mixed" and j % 2 == 0)
+            out.append(self.rx[k - 1] if asobj else self.rids[k - 1])
+        return out
+
+    def run(self, beh, tid, prop):
         events = []
         for s in beh["steps"]:
             nsol = len(self.solutions)
             obs = self.step(s)
             snaps = [self.digest(x) for x in self.solutions[:nsol]]
             events.append({"step": s, "obs": obs, "model": self.readback(), "snaps": snaps})
-        return {"tid": tid, "M0": beh["M0"], "events": events}
+        return {"tid": tid, "prop": prop, "M0": beh["M0"], "events": events}
 
 
 class _Timeout(Exception):
@@ -289,10 +421,10 @@ def _drive_chunk(items):
     logging.disable(logging.CRITICAL)
     out = []
     signal.signal(signal.SIGALRM, _alarm)
-    for tid, pal, beh in items:
+    for tid, pal, beh, prop in items:
         signal.alarm(60)
         try:
-            out.append(Driver(pal, beh["M0"]).run(beh, tid))
+            out.append(Driver(pal, beh["M0"]).run(beh, tid, prop))
         except _Timeout:
             raise C.Machinery("driver timed out on behaviour %s" % json.dumps(beh)[:400])
         finally:
@@ -363,6 +495,9 @@ def validate(traces, wd, tag, max_events=6000):
 
 
 # ------------------------------------------------------------------ run
+CERT_CLAUSES = {"dual_certificate", "in_bounds", "steady_state", "objective_is_c_dot_v",
+                "accessor_dual_certificate", "accessor_in_bounds", "accessor_steady_state"}
+
 REQUIRED_OPS = {
     "C04": ["optimize", "slim", "access", "setbounds", "setobj", "setdir"],
     "C05": ["fva"],
@@ -371,8 +506,10 @@ REQUIRED_OPS = {
 }
 
 
-def _palettes_for(bi, k):
-    return [PALETTES[(bi + j) % len(PALETTES)] for j in range(k)]
+def _palettes_for(bi, k, beh):
+    # optlang's glpk_exact interface refuses integer variables: add_loopless needs the MILP-capable interface
+    pals = [p for p in PALETTES if p["solver"] == "glpk"] if any(s["op"] == "add_loopless" for s in beh["steps"]) else PALETTES
+    return [pals[(bi + j) % len(pals)] for j in range(k)]
 
 
 def run(prop, tier, replay=None):
@@ -385,32 +522,56 @@ def run(prop, tier, replay=None):
         return _replay(rep, wd, replay)
     sd = C.seed()
     T = TIERS[prop][tier]
+    phases = {}
+    t0 = time.time()
     design, controls = design_check(prop, tier, wd, rep)
+    phases["design_and_negative_controls"] = round(time.time() - t0, 1)
     total_traces = total_events = 0
     per_action, samples, cases = {}, [], set()
     undecided = 0
     gen_cov = {}
-    for name, over, npal in T["gens"]:
-        consts = _consts(dict(over, Prop=prop), sd)
-        behs, stats = generate(wd, consts)
+    for name, over, npal in list(T["gens"]) + [("witnesses", None, 1)]:
+        if over is None:
+            # the pinned, seed-independent witness behaviour of every open finding of this property
+            behs = [{"M0": f["witness"]["M0"], "steps": f["witness"]["steps"], "walk": 0, "finding": f["id"],
+                     "palette": f["witness"].get("palette", "glpk-plain")}
+                    for f in rep.findings if f.get("status") == "open" and prop in f.get("properties", [])
+                    and isinstance(f.get("witness"), dict) and "M0" in f["witness"] and "steps" in f["witness"]]
+            consts, stats = {"Mode": "witnesses"}, {"distinct": 0}
+        else:
+            consts = _consts(dict(over, Prop=prop), sd)
+            t0 = time.time()
+            behs, stats = generate(wd, consts)
+            phases["generate_" + name] = round(time.time() - t0, 1)
         items, meta = [], {}
         tid = 0
         for bi, beh in enumerate(behs):
-            for pal in _palettes_for(bi + sd, npal):
+            for pal in ([p for p in PALETTES if p["name"] == beh["palette"]] if "palette" in beh
+                        else _palettes_for(bi + sd, npal, beh)):
                 tid += 1
-                items.append((tid, pal, beh))
+                items.append((tid, pal, beh, prop))
                 meta[tid] = (pal["name"], bi)
+        t0 = time.time()
         traces, crashed = drive_all(items)
+        phases["drive_" + name] = round(time.time() - t0, 1)
         for it in crashed:
             rep.verdict({"verdict": "MISMATCH", "spec": "TraceFlux", "action": "crash", "clauses": ["worker_crashed"],
                          "tags": [], "tid": it[0]}, {"engine": "flux", "palette": it[1]["name"], "behaviour": it[2]})
+        t0 = time.time()
         verdicts, cmd = validate(traces, wd, name)
+        phases["validate_" + name] = round(time.time() - t0, 1)
         by_tid = {t["tid"]: t for t in traces}
         for v in verdicts:
             if v.get("verdict") == "UNDECIDED":
                 undecided += 1
                 continue
             pal, bi = meta[v["tid"]]
+            cl = set(v.get("clauses", []))
+            if cl & {"true_optimum", "accessor_true_optimum"} and not cl & CERT_CLAUSES:
+                # the implementation's value is certified optimal by its own feasible primal/dual pair:
+                # then the lattice oracle is what is wrong -- a machinery failure, not a violation
+                raise C.Machinery("oracle self-test: lattice optimum disagrees with a dual-certified optimum: %s / %s"
+                                  % (json.dumps(v)[:300], json.dumps(behs[bi])[:400]))
             v2 = dict(v)
             v2["spec"] = "TraceFlux"
             v2["action"] = v["op"]
@@ -441,6 +602,7 @@ def run(prop, tier, replay=None):
     rep.coverage["exhaustive"] = True
     rep.coverage["behaviour_generation"] = gen_cov
     rep.coverage["design_runs"] = design
+    rep.coverage["phase_wall_s"] = phases
     rep.assumptions = ASSUMPTIONS[prop]
     return rep.finish({
         "traces_validated_against_impl": total_traces, "events_validated": total_events,
@@ -461,13 +623,35 @@ ASSUMPTIONS = {
         "solver outputs are compared in 10^-6 fixed point (tolerance 1e-6 absolute, plus 1/2 unit of rounding per term of a sum)",
         "reaction.flux / reduced_cost / metabolite.shadow_price are read directly after a solve",
     ],
+    "C05": [
+        "exhaustive within the stated families; pseudo-random larger instances and edit histories are samples; processes=1 "
+        "(process counts are the parallel engine's subject)",
+        "ranges are compared with the lattice range only where the objective restriction is bound-type or a face "
+        "(Decidable): fraction 1, fraction 0 / 1/2 with a single-reaction objective and integral bound, or a vacuous restriction; "
+        "otherwise the two-sided bracket lattice range <= reported <= plain range is checked and the event is counted undecided",
+        "loopless ranges are judged only when a loop-free vector attains the required objective; pfba_factor exactly when the cap is "
+        "vacuous or factor = 1 (argmin face), otherwise by the bracket",
+        "requests with an unbounded range are not judged (no number can be the true extreme)",
+    ],
+    "C19": [
+        "exhaustive within the stated families; pseudo-random larger instances are samples",
+        "judged on models whose bound intervals all contain 0 and are finite (InScope_C19); every metabolite lives in the "
+        "external compartment so that model.exchanges is exactly the set of boundary reactions (asserted by the driver)",
+        "open_exchanges is represented inside the lattice box by the scale lemma (ThmBlocked, checked by TLC on the design family)",
+    ],
+    "C17": [
+        "exhaustive within the stated cycle families; pseudo-random larger instances are samples",
+        "start vectors are optimal solutions of the same model (the documented precondition), obtained by optimising auxiliary "
+        "objectives over the optimal face; a start vector that is not optimal and feasible is not judged",
+        "irreducibility is decided when the returned vector is integral (unit step on the lattice)",
+    ],
 }
 
 
 def _replay(rep, wd, payload):
     r = payload["replay"]
     pal = [p for p in PALETTES if p["name"] == r["palette"]][0]
-    traces, crashed = drive_all([(1, pal, r["behaviour"])], nproc=1)
+    traces, crashed = drive_all([(1, pal, r["behaviour"], rep.prop)], nproc=1)
     if crashed:
         rep.verdict({"verdict": "MISMATCH", "spec": "TraceFlux", "action": "crash", "clauses": ["worker_crashed"], "tags": [],
                      "tid": 1}, {"engine": "flux", "palette": pal["name"], "behaviour": r["behaviour"]})
